@@ -56,13 +56,19 @@ Built buildModel(const J &am)
         }
         m->addUnits(units);
         b.units[u["name"].str()] = units;
+        b.unitsAt.push_back(units);
     }
     // components: parents first (records name their parent)
     std::map<std::string, ComponentPtr> comps;
     std::vector<const J *> pending;
+    std::map<const J *, size_t> indexOf;
     for (auto &c : am["comps"].a) {
+        indexOf[&c] = pending.size();
         pending.push_back(&c);
     }
+    b.compAt.resize(pending.size());
+    b.varAt.resize(pending.size());
+    b.resetAt.resize(pending.size());
     size_t guard = 0;
     while (!pending.empty() && guard++ < 1000) {
         std::vector<const J *> next;
@@ -109,6 +115,7 @@ Built buildModel(const J &am)
                 }
                 comp->addVariable(var);
                 b.vars[c["name"].str() + "/" + v["name"].str()] = var;
+                b.varAt[indexOf[pc]].push_back(var);
             }
             for (auto &r : c["resets"].a) {
                 auto rst = Reset::create();
@@ -138,6 +145,7 @@ Built buildModel(const J &am)
                 }
                 comp->addReset(rst);
                 b.resets.push_back(rst);
+                b.resetAt[indexOf[pc]].push_back(rst);
             }
             if (parent == "none") {
                 m->addComponent(comp);
@@ -145,6 +153,7 @@ Built buildModel(const J &am)
                 comps[parent]->addComponent(comp);
             }
             comps[c["name"].str()] = comp;
+            b.compAt[indexOf[pc]] = comp;
         }
         pending.swap(next);
     }
